@@ -155,6 +155,23 @@ pub fn random_case(r: &mut Rng, maxlen: usize) -> Value {
 /// SIMD-stride-directed data-state inputs: stop characters / newlines / multi-byte characters at
 /// every offset modulo 16 across three strides.
 pub fn stride_cases(f: &mut dyn FnMut(Value)) {
+    // a line break at every position p before a stop character at every position q (three strides)
+    for q in 1..50usize {
+        for p in 0..q {
+            if q > 20 && p + 3 < q && p % 16 != 0 && p % 16 != 15 {
+                continue;
+            }
+            for (nl, stop) in [("\n", "<b>"), ("\n", "&amp;"), ("\n", "\r"), ("\n", "\0"), ("\n", "\n<")] {
+                let mut s = String::new();
+                for i in 0..q {
+                    if i == p { s.push_str(nl) } else { s.push('y') }
+                }
+                s.push_str(stop);
+                s.push_str("tail");
+                f(mk("Data", &json!([]), false, "std", &s));
+            }
+        }
+    }
     let specials = ["<", "&", "\r", "\0", "\n", "\r\n", "é", "\u{10000}", "<b>", "&amp;"];
     let none = json!([]);
     for off in 0..49usize {
@@ -173,26 +190,94 @@ pub fn stride_cases(f: &mut dyn FnMut(Value)) {
     }
 }
 
+pub const LINE_PIECES: &[&str] = &[
+    "\n", "\r", "<", ">", "a", "=", "\"", "&", "-", "!", " ", "/", ";", "#", "'", "doctype", "PUBLIC", "amp", "--", "script", "[CDATA[", "]",
+];
+
+/// all ways to cut `text` into consecutive chunks at character boundaries (2^(n-1)); for longer
+/// texts: the unsplit text, every single cut, all-single-character chunks, and a few random cuts
+pub fn chunkings(text: &str, how: &str, r: &mut Rng) -> Vec<Vec<String>> {
+    let chars: Vec<char> = text.chars().collect();
+    let n = chars.len();
+    let cut = |mask: &dyn Fn(usize) -> bool| -> Vec<String> {
+        let mut v = Vec::new();
+        let mut cur = String::new();
+        for i in 0..n {
+            cur.push(chars[i]);
+            if i + 1 < n && mask(i) {
+                v.push(std::mem::take(&mut cur));
+            }
+        }
+        v.push(cur);
+        v
+    };
+    let mut out = vec![vec![text.to_string()]];
+    if how == "none" || n <= 1 {
+        return out;
+    }
+    if how == "all" && n <= 7 {
+        for m in 1u32..(1u32 << (n - 1)) {
+            out.push(cut(&|i| (m >> i) & 1 == 1));
+        }
+        // with empty chunks around the single-character split
+        let mut e = vec![String::new()];
+        for c in &chars {
+            e.push(c.to_string());
+            e.push(String::new());
+        }
+        out.push(e);
+        return out;
+    }
+    for k in 0..(n - 1) {
+        out.push(cut(&|i| i == k));
+    }
+    out.push(cut(&|_| true));
+    for _ in 0..3 {
+        let seed = r.next();
+        out.push(cut(&|i| (seed.wrapping_mul(i as u64 * 2 + 1) >> 17) & 3 == 0));
+    }
+    out
+}
+
 pub fn generate(args: &Args, fields: &str, out: &mut Out) {
     let mode = args.get("mode").unwrap_or("random");
     let shard = args.num("shard", 0);
     let shards = args.num("shards", 1).max(1);
+    let how = args.get("chunk").unwrap_or("none").to_string();
+    let opts = args.get("opts").unwrap_or("").to_string();
     let mut id = 0u64;
+    let mut cr = Rng::new(args.num("seed", 1) ^ 0x5555);
     let mut emit = |c: Value, out: &mut Out| {
-        id += 1;
-        let rr = run_tok(&c);
-        out.line(&case_line(&c, id, &rr, fields));
+        let text = from_cps(&c["chunks"][0]);
+        for ch in chunkings(&text, &how, &mut cr) {
+            let mut c2 = c.clone();
+            c2["chunks"] = Value::Array(ch.iter().map(|x| cps(x)).collect());
+            let variants: Vec<(bool, bool)> = if opts == "all" {
+                vec![(false, false), (true, false), (false, true), (true, true)]
+            } else {
+                vec![(false, false)]
+            };
+            for (exact, bom) in variants {
+                c2["exact"] = json!(exact);
+                c2["bom"] = json!(bom);
+                id += 1;
+                let rr = run_tok(&c2);
+                out.line(&case_line(&c2, id, &rr, fields));
+            }
+        }
     };
     match mode {
         "enum" => {
             let k = args.num("k", 2) as usize;
             let np = args.num("pieces", PIECES.len() as u64) as usize;
-            enumerate(k, shard, shards, &PIECES[..np.min(PIECES.len())], &mut |c| emit(c, out));
+            let set: &[&str] = if args.get("pset") == Some("lines") { LINE_PIECES } else { PIECES };
+            enumerate(k, shard, shards, &set[..np.min(set.len())], &mut |c| emit(c, out));
         },
         "prefixed" => {
             let k = args.num("k", 2) as usize;
             let np = args.num("pieces", PIECES.len() as u64) as usize;
-            enumerate_prefixed(k, shard, shards, &PIECES[..np.min(PIECES.len())], &mut |c| emit(c, out));
+            let set: &[&str] = if args.get("pset") == Some("lines") { LINE_PIECES } else { PIECES };
+            enumerate_prefixed(k, shard, shards, &set[..np.min(set.len())], &mut |c| emit(c, out));
         },
         "stride" => {
             let mut all = Vec::new();
